@@ -51,7 +51,11 @@ def c10_eligible(valid):
 
 
 def c10_units(valid):
-    return [0, 1, 2]  # info, players, rules
+    """0-2: the fault hits the initial request of info / players / rules; 3-5: it hits the LAST exchange of an attempt of
+    that section, after the server answered every earlier one with a challenge (needs >= 1 challenge round): the retried
+    unit is the whole handshake-plus-request, so such an attempt counts like any other"""
+    ch = [int(x) for x in valid.tags["CH"].split(",")]
+    return [0, 1, 2] + [3 + k for k in range(3) if ch[k] >= 1]
 
 
 def c10_build(valid, unit, v, r, new_id):
@@ -63,20 +67,24 @@ def c10_build(valid, unit, v, r, new_id):
     starts = [0, seg[0], seg[0] + seg[1]]
     groups = [ds[starts[k]:starts[k] + seg[k]] for k in range(3)]
     newds, faults = [], []
+    section, late = unit % 3, unit >= 3
     for k in range(3):
-        if k != unit:
+        if k != section:
             newds += groups[k]
             faults += [False] * (1 + ch[k])
             continue
+        # the challenge replies of one attempt (one datagram each), delivered before a late fault
+        pre = groups[k][:ch[k]] if late else []
         for e in v:
             if e == "S":
-                newds.append(None)
-                faults.append(False)
+                newds += pre + [None]
+                faults += [False] * (len(pre) + 1)
             elif e == "F":
-                faults.append(True)
+                newds += pre
+                faults += [False] * len(pre) + [True]
             elif e == "M":
-                newds.append(b"\xff\xff")
-                faults.append(False)
+                newds += pre + [b"\xff\xff"]
+                faults += [False] * (len(pre) + 1)
             else:
                 newds += groups[k]
                 faults += [False] * (1 + ch[k])
@@ -91,7 +99,10 @@ def c10_build(valid, unit, v, r, new_id):
 
 def c10_attempts(valid, unit, sends, clean):
     """attempts of `unit` seen on the wire; sends = [(conn, port, hex, failed)]; a valid attempt also answers each
-    challenge once"""
+    challenge once; with a late fault every attempt, failed or not, sends 1 + (challenge rounds) datagrams"""
     ch = [int(x) for x in valid.tags["CH"].split(",")]
-    kind_sends = sum(1 for (_, _, data, _) in sends if data[8:10] == KIND[unit])
+    kind_sends = sum(1 for (_, _, data, _) in sends if data[8:10] == KIND[unit % 3])
+    if unit >= 3:
+        q, rem = divmod(kind_sends, 1 + ch[unit % 3])
+        return q if rem == 0 else -kind_sends  # not a whole number of attempts: reported as a mismatch
     return kind_sends - (ch[unit] if clean else 0)
